@@ -17,9 +17,18 @@ import (
 func init() { sections["ryu"] = ryuSection }
 
 func genFloatForRyu(r *tx.Rng) uint64 {
-	switch r.Intn(12) {
+	switch r.Intn(13) {
 	case 0:
 		return floatBits[r.Intn(len(floatBits))]
+	case 12: // large values whose exact expansion ends in ...25 / ...125 / ...75: the shortest text needs a round-half-even decision
+		k := 46 + r.Intn(6)
+		n := float64(uint64(1)<<uint(k) + r.U64()%(uint64(1)<<uint(k)))
+		ulp := math.Ldexp(1, k-52)
+		f := math.Floor(n) + ulp*float64(1+2*r.Intn(2)) // an odd multiple of the ulp: .25/.75 at 2^50, .125/.375 at 2^49, ...
+		if r.Bool() {
+			f = -f
+		}
+		return math.Float64bits(f)
 	case 10, 11: // exact powers of two over the whole exponent range (the lower neighbour is half as far away as the upper one)
 		return uint64(r.Intn(2))<<63 | uint64(1+r.Intn(2046))<<52
 	case 1: // exponent sweep with boundary mantissas
